@@ -232,8 +232,15 @@ def _applicable_alternatives(sch, own_path, fn, call, repo):
     g = CFG(fn)
     st = repo.stmt_of(call)
     for t, pol in cond_guards(g, st):
-        if isinstance(t, ast.Compare) and isinstance(t.ops[0], ast.In) and isinstance(t.left, ast.Attribute) and \
+        while isinstance(t, ast.UnaryOp) and isinstance(t.op, ast.Not):
+            t, pol = t.operand, not pol
+        if isinstance(t, ast.Compare) and len(t.ops) == 1 and isinstance(t.ops[0], (ast.Eq, ast.NotEq)) and isinstance(t.left, ast.Attribute) and \
+                isinstance(t.comparators[0], ast.Constant):
+            t = ast.Compare(left=t.left, ops=[ast.In() if isinstance(t.ops[0], ast.Eq) else ast.NotIn()], comparators=[ast.Tuple(elts=[t.comparators[0]], ctx=ast.Load())])
+        if isinstance(t, ast.Compare) and len(t.ops) == 1 and isinstance(t.ops[0], (ast.In, ast.NotIn)) and isinstance(t.left, ast.Attribute) and \
                 isinstance(t.comparators[0], (ast.Tuple, ast.List, ast.Set)):
+            if isinstance(t.ops[0], ast.NotIn):
+                pol = not pol
             field = t.left.attr
             vals = {const_val(e) for e in t.comparators[0].elts}
             keep = []
